@@ -12,6 +12,7 @@
      its two critical sections makes a read fail.
 -/
 import BurrowVerif.Proofs.Locks
+import BurrowVerif.Proofs.LocksProgress
 import BurrowVerif.Generated.StorageLocks
 import BurrowVerif.Model.Storage
 
@@ -32,6 +33,34 @@ theorem paths_balanced : allBalanced storageHandlers = true := by decide
 /-- nested acquisition is always consumer-map lock before group lock; the broker lock is taken with
     nothing else held: the acquisition order is acyclic (no deadlock by lock ordering) -/
 theorem acquisition_ordered : allOrdered storageHandlers = true := by decide
+
+/-- every control-flow path of every storage handler, as generated -/
+def storagePaths : List (List Ev) := storageHandlers.flatMap (·.2.2.2)
+
+theorem storage_paths_good : ∀ p ∈ storagePaths, balancedFrom [] p = true ∧ ordBy rank [] p = true := by
+  intro p hp
+  simp only [storagePaths, List.mem_flatMap] at hp
+  obtain ⟨h, hh, hp⟩ := hp
+  have hb := List.all_eq_true.mp (List.all_eq_true.mp paths_balanced h hh) p hp
+  have ho := List.all_eq_true.mp (List.all_eq_true.mp acquisition_ordered h hh) p hp
+  exact ⟨hb, ordBy_of_orderedFrom p [] ho⟩
+
+/-- **no deadlock**: in the machine whose workers run the generated handler paths — any number of
+    workers, any assignment of requests, locks granted with Go's writer preference — whenever some
+    worker has something left to do, some worker can take its next step.  (Mechanised from the
+    balance and acquisition-order checks above; lock instances of one class are conflated in the
+    skeleton, and the same theorem — `Locks.deadlock_free`, for an arbitrary rank function — covers
+    instances ranked by their class.) -/
+theorem no_deadlock {c : Conf} (hr : ReachableWP storagePaths c) {i : Nat} (hi : (c i).todo ≠ []) :
+    ∃ j, enabledWP c j :=
+  deadlock_free rank 3 (by intro l; unfold rank; split <;> (try split) <;> omega) c
+    (reachableWP_good rank storage_paths_good hr) hi
+
+/-- … and that machine's configurations are configurations of the machine of `no_data_race` -/
+theorem wp_machine_is_a_restriction {c : Conf} (hr : ReachableWP storagePaths c) : Reachable c := hr.reachable
+
+/-- non-vacuity: a worker in the middle of a generated path that nests two locks is reachable -/
+example : storagePaths.any (fun p => p.any fun e => e == .acq "group" .w) = true := by decide
 
 /-- **no data race**: in every reachable configuration of the worker machine, two different workers
     are never both about to perform accesses whose lock sets share a lock one of them writes -/
